@@ -172,8 +172,30 @@ func (bs *boolSummer) summarise(fn *ssa.Function, env map[string]string, depth i
 			return
 		}
 		if onPath[b] {
-			ok = false // loop
+			ok = false // a loop that is not one of the forms handled below
 			return
+		}
+		// a loop whose only tests are its own control (a range over a table that sets headers, say) adds nothing to the
+		// conditions of what follows: the walk steps over it to its single exit
+		if cyc := cycleOf(b); len(cyc) > 0 && (pred == nil || !cyc[pred]) && benignLoopAt(b) {
+			var exitFrom, exitTo *ssa.BasicBlock
+			single := true
+			for x := range cyc {
+				for _, s := range x.Succs {
+					if !cyc[s] {
+						if exitTo != nil && exitTo != s {
+							single = false
+						}
+						exitFrom, exitTo = x, s
+					}
+				}
+			}
+			if single && exitTo != nil && !(bs.target != nil && depth == 0 && blocksContain(cyc, bs.target)) {
+				onPath[b] = true
+				walk(exitTo, exitFrom, cond, phiEnv)
+				onPath[b] = false
+				return
+			}
 		}
 		// a membership loop over a constant table is a disjunction: x == k1 || x == k2 || ...
 		if ml, isML := membershipLoopAt(b); isML && (pred == nil || !ml.inLoop[pred]) {
@@ -331,6 +353,28 @@ func (bs *boolSummer) evalBool(fn *ssa.Function, v ssa.Value, cond lits, pe map[
 			}
 		}
 	case *ssa.Call:
+		// slices.Contains(table, x) over a package-level constant table is the disjunction x == k1 || x == k2 || ...
+		if calleeName(x) == "slices.Contains" && len(x.Call.Args) == 2 {
+			if consts, okT := constTableOf(x.Call.Args[0]); okT {
+				subj, _ := normValueName(x.Call.Args[1], env)
+				var out []boolCase
+				cur := cond
+				for _, k := range consts {
+					atom := subj + "==" + k
+					if c := cur.with(atom, true); c != nil {
+						out = append(out, boolCase{c, true})
+					}
+					cur = cur.with(atom, false)
+					if cur == nil {
+						break
+					}
+				}
+				if cur != nil {
+					out = append(out, boolCase{cur, false})
+				}
+				return out
+			}
+		}
 		// expand loop-free module functions returning a single bool
 		if sc := staticCallee(x); sc != nil && depth < 3 {
 			g := unwrapSynthetic(sc)
@@ -825,4 +869,162 @@ func membershipLoopAt(h *ssa.BasicBlock) (memLoop, bool) {
 	ml.subject, ml.body, ml.hit, ml.exit = subj, body, body.Succs[0], exit
 	ml.inLoop = map[*ssa.BasicBlock]bool{h: true, body: true}
 	return ml, true
+}
+
+// constTableOf: v is (a slice of) a package-level array / slice variable with constant elements that nothing but
+// the initialiser writes; returns the constants as they appear in atoms.
+func constTableOf(v ssa.Value) ([]string, bool) {
+	v = unconv(v)
+	var g *ssa.Global
+	switch x := v.(type) {
+	case *ssa.UnOp:
+		if x.Op == token.MUL {
+			g, _ = x.X.(*ssa.Global)
+		}
+	case *ssa.Slice:
+		g, _ = x.X.(*ssa.Global)
+		if g == nil {
+			if u, ok := x.X.(*ssa.UnOp); ok && u.Op == token.MUL {
+				g, _ = u.X.(*ssa.Global)
+			}
+		}
+	}
+	if g == nil {
+		return nil, false
+	}
+	var out []string
+	if tab, ok := globalStringTable(g); ok {
+		for _, k := range tab {
+			out = append(out, strconv.Quote(k))
+		}
+		return out, true
+	}
+	if tab, ok := globalIntTable(g); ok {
+		for _, k := range tab {
+			out = append(out, strconv.FormatInt(k, 10))
+		}
+		return out, true
+	}
+	return nil, false
+}
+
+var benignLoopMemo = map[*ssa.BasicBlock]bool{}
+
+// benignLoopAt: b lies on a cycle all of whose conditional branches are loop control (a counter against a count or a
+// constant, or the ok of a range iterator).
+func benignLoopAt(b *ssa.BasicBlock) bool {
+	if v, done := benignLoopMemo[b]; done {
+		return v
+	}
+	// blocks on a cycle through b: reachable from b and reaching b
+	fwd := map[*ssa.BasicBlock]bool{}
+	var st []*ssa.BasicBlock
+	st = append(st, b.Succs...)
+	for len(st) > 0 {
+		x := st[len(st)-1]
+		st = st[:len(st)-1]
+		if fwd[x] {
+			continue
+		}
+		fwd[x] = true
+		st = append(st, x.Succs...)
+	}
+	bwd := map[*ssa.BasicBlock]bool{}
+	st = append(st[:0], b.Preds...)
+	for len(st) > 0 {
+		x := st[len(st)-1]
+		st = st[:len(st)-1]
+		if bwd[x] {
+			continue
+		}
+		bwd[x] = true
+		st = append(st, x.Preds...)
+	}
+	ok := true
+	for x := range fwd {
+		if !bwd[x] && x != b {
+			continue
+		}
+		if len(x.Instrs) == 0 {
+			continue
+		}
+		iff, isIf := x.Instrs[len(x.Instrs)-1].(*ssa.If)
+		if !isIf {
+			continue
+		}
+		switch cnd := iff.Cond.(type) {
+		case *ssa.Extract:
+			if _, isNext := cnd.Tuple.(*ssa.Next); !isNext || cnd.Index != 0 {
+				ok = false
+			}
+		case *ssa.BinOp:
+			counterish := func(v ssa.Value) bool {
+				v = unconvNum(v)
+				if _, isPhi := v.(*ssa.Phi); isPhi {
+					return true
+				}
+				if bo, isB := v.(*ssa.BinOp); isB && bo.Op == token.ADD {
+					_, p := unconvNum(bo.X).(*ssa.Phi)
+					_, k := constInt(bo.Y)
+					return p && k
+				}
+				return false
+			}
+			countish := func(v ssa.Value) bool {
+				if _, isK := constInt(v); isK {
+					return true
+				}
+				_, isLen := lenOf(v)
+				return isLen
+			}
+			if !((counterish(cnd.X) && countish(cnd.Y)) || (counterish(cnd.Y) && countish(cnd.X))) {
+				ok = false
+			}
+		default:
+			ok = false
+		}
+	}
+	benignLoopMemo[b] = ok
+	return ok
+}
+
+// cycleOf: the blocks on a cycle through b (b included), or nil if b is on none.
+func cycleOf(b *ssa.BasicBlock) map[*ssa.BasicBlock]bool {
+	fwd := map[*ssa.BasicBlock]bool{}
+	var st []*ssa.BasicBlock
+	st = append(st, b.Succs...)
+	for len(st) > 0 {
+		x := st[len(st)-1]
+		st = st[:len(st)-1]
+		if fwd[x] {
+			continue
+		}
+		fwd[x] = true
+		st = append(st, x.Succs...)
+	}
+	if !fwd[b] {
+		return nil
+	}
+	bwd := map[*ssa.BasicBlock]bool{}
+	st = append(st[:0], b.Preds...)
+	for len(st) > 0 {
+		x := st[len(st)-1]
+		st = st[:len(st)-1]
+		if bwd[x] {
+			continue
+		}
+		bwd[x] = true
+		st = append(st, x.Preds...)
+	}
+	out := map[*ssa.BasicBlock]bool{b: true}
+	for x := range fwd {
+		if bwd[x] {
+			out[x] = true
+		}
+	}
+	return out
+}
+
+func blocksContain(bs map[*ssa.BasicBlock]bool, in ssa.Instruction) bool {
+	return in != nil && bs[in.Block()]
 }
